@@ -42,7 +42,9 @@ type C13Scenario struct {
 	Tree     *N        `json:"tree"`
 	Env      *EnvData  `json:"env"`
 	Sites    []C13Site `json:"sites"`
-	Source   string    `json:"source_text,omitempty"`
+	// Overload: the ** operator is overloaded (OpA, OpB); 'O ** O' is a call of OpA.
+	Overload bool   `json:"operator_overload,omitempty"`
+	Source   string `json:"source_text,omitempty"`
 }
 
 func (sc *C13Scenario) clone() *C13Scenario {
@@ -136,6 +138,10 @@ func (c13Engine) Gen(seed uint64, idx int, tier string) interface{} {
 		sc.API = "eval"
 	}
 	sc.Reuse = r.Chance(1, 5)
+	if r.Chance(1, 3) {
+		sc.Overload = true
+		sc.API = "run" // Eval takes no options
+	}
 	sc.Layout = Layout{Mode: 1 + r.Intn(2), Salt: r.Next()}
 	if r.Chance(1, 6) {
 		sc.Layout.Mode = 0
@@ -145,6 +151,7 @@ func (c13Engine) Gen(seed uint64, idx int, tier string) interface{} {
 		cfg := GenCfg{Budget: r.Range(8, 44), Calls: true, Dyn: true, Failing: true, Strings: true, Closures: r.Chance(3, 4), Maps: r.Chance(1, 2),
 			Objects: true, ShortPred: r.Chance(1, 2), NilSafe: r.Chance(1, 3), SliceCall: true, ConstFns: r.Chance(1, 3), AnyUsable: true}
 		cfg.MapRep = sc.Rep == RepMap
+		cfg.Overload = sc.Overload
 		g := NewGen(r.Fork(), cfg)
 		sc.Tree = genRoot(g, r)
 		if r.Chance(1, 2) {
@@ -291,7 +298,13 @@ func (c13Engine) Run(sci interface{}, ctx *RunCtx) *Finding {
 		if constExpr {
 			opts = append(opts, expr.ConstExpr("CI"), expr.ConstExpr("CS"), expr.ConstExpr("CB"))
 		}
+		if sc.Overload {
+			opts = append(opts, expr.Operator("**", "OpA", "OpB"))
+		}
 		p, co := sutCompile(pr.Src, opts...)
+		// another, unrelated compilation right afterwards: the program just compiled
+		// (its bytecode-offset -> location table included) must not be affected by it
+		sutCompile("[1, \"é\"][0] + len(\"abc\")", opts...)
 		return p, co, w0
 	}
 
@@ -498,6 +511,7 @@ func (c13Engine) Shrinks(sci interface{}) []interface{} {
 	add(func(c *C13Scenario) { c.Layout.Mode = 1; c.Source = Print(c.Tree, c.Layout).Src })
 	add(func(c *C13Scenario) { c.Rep = RepStruct })
 	add(func(c *C13Scenario) { c.API = "run" })
+	add(func(c *C13Scenario) { c.Overload = false })
 	add(func(c *C13Scenario) { c.Optimize = true })
 	for _, e := range envShrinks(sc.Env) {
 		e := e
